@@ -186,7 +186,8 @@ def interpvars(f, weights, dimension, loginterp=[]):
     loginterp - iterable of keys to interp on log scale
     """
     outf = PseudoNetCDFFile()
-    outf.dimensions = f.dimensions.copy()
+    for dimk, dimv in f.dimensions.items():
+        outf.copyDimension(dimv, key=dimk)
     if hasattr(f, 'groups'):
         outf.groups = OrderedDict()
         for grpk, grpv in f.groups.items():
@@ -227,7 +228,8 @@ def interpvars(f, weights, dimension, loginterp=[]):
                 linv = (weightsv * oldvarv).sum(dimidx + 1)
                 newvar[:] = linv
         else:
-            outf.variables[vark] = oldvar
+            # a copy: the result shares nothing with the input
+            outf.copyVariable(oldvar, key=vark)
     return outf
 
 
